@@ -21,6 +21,12 @@ CHECKS = {
  "C20": ("other", "SSA data-dependence (hand-out derives from the atomic RMW result, not from an earlier load), DBM bounds guard, constant evaluation of mmap arguments, tag/dispatch agreement, error-use analysis",
          "Decides, for every interleaving, the structural condition that makes overlapping hand-outs impossible in the fallback allocator (base computed from the atomic reservation), that hand-out is bounded by the scanned reserve, that failures carry an error, and that Acquire/Write agree on region kinds. Kernel-side disjointness of mmap regions and executability are not decided.",
          "Trusted: go/ssa; sync/atomic semantics; numeric values of syscall PROT_/MAP_ constants on linux."),
+ "C04": ("other", "SSA loop-shape analysis (induction variable first/step, same-value Match/Result pairing, fall-through to default), append-only who-may-write on the condition list, DBM proof that variadic unwrapping indexes the last position",
+         "Decides the order and shape of condition selection (registration order kept, first match returned, default fall-through, no-default panic, conjunction over positions, receiver dropped) and that variadic unwrapping is confined to the trailing position, for every signature and stub configuration. Per-argument truth is C18/C09.",
+         "Trusted: go/ssa; the exported names When, Matcher; variadic regions are recognised by a bool parameter/field whose name contains 'variadic' or Type.IsVariadic()."),
+ "C18": ("other", "effect analysis over the module call graph (Eval writes nothing non-local), constant-return check, constructor sharing (In rows via ToExpr/Equals), loop-shape check of the In disjunction, kind-guard + boolean-atom path enumeration for Value.Elem",
+         "Decides purity of evaluation (an evaluation cannot change a later answer), Any≡true, In=union-of-rows shape and sharing of the Equals implementation, and panic-freedom of Elem() in the equality cascade. Equality semantics over all values (symmetry, numeric coercions) is value-level and not decided.",
+         "Trusted: go/ssa; reflect functions are pure; nil-test helpers are recognised as arg functions whose name contains 'nil'."),
 }
 NA = {}
 PENDING_REASON = "check not built yet in this revision (planned per DESIGN.md section 3); not claimed until it runs"
